@@ -345,11 +345,11 @@ end
 /-- `Request.encode` on a tier-2 description = the pure encoder from the empty message -/
 theorem encodeMessage_tree (ts : List Tree) (hneed : Trees.need ts + 2 ≤ modelFuel) (hok : Trees.okAll ts)
     (hn : Trees.namesOk ts) (trig : Option Bytes) :
-    ∃ s0 : EncState, s0.msg = [] ∧ s0.warn = 0 ∧ s0.cursorByte = 0 ∧ s0.origin = 0 ∧
+    ∃ s0 : EncState, s0.msg = [] ∧ s0.used = [] ∧ s0.warn = 0 ∧ s0.cursorByte = 0 ∧ s0.origin = 0 ∧
       encodeMessage none (Trees.toParams ts) (.dict (Trees.pair ts).val) trig true =
         .ok (((Trees.pair ts).enc s0).msg, ((Trees.pair ts).enc s0).warn) := by
   let s0 : EncState := { trig := trig, isEndOfPdu := false }
-  refine ⟨s0, rfl, rfl, rfl, rfl, ?_⟩
+  refine ⟨s0, rfl, rfl, rfl, rfl, rfl, ?_⟩
   obtain ⟨f, hf⟩ : ∃ f, modelFuel = f + 1 + 1 := ⟨modelFuel - 2, by unfold modelFuel; omega⟩
   have hf' : Trees.need ts ≤ f := by omega
   obtain ⟨sp, hrun, hcore⟩ := Trees.encode_eq ts hok hn (Trees.pair ts).val
@@ -389,7 +389,7 @@ theorem tree_roundtrip_msg (ts : List Tree) (hneed : Trees.need ts + 2 ≤ model
     (hn : Trees.namesOk ts) (trig : Option Bytes) (pdu : Bytes)
     (henc : encodeMessage none (Trees.toParams ts) (.dict (Trees.pair ts).val) trig true = .ok (pdu, 0)) :
     ∃ cursor, decodeMessage none (Trees.toParams ts) pdu true = .ok (.dict (Trees.pair ts).val, cursor) := by
-  obtain ⟨s0, hm, hw, hc, ho, hrun⟩ := encodeMessage_tree ts hneed hok hn trig
+  obtain ⟨s0, hm, _, hw, hc, ho, hrun⟩ := encodeMessage_tree ts hneed hok hn trig
   rw [hrun] at henc
   simp only [Except.ok.injEq, Prod.mk.injEq] at henc
   obtain ⟨hpdu, hwarn⟩ := henc
